@@ -54,6 +54,7 @@ var commands = map[string]command{
 	"hash-replay":         hashReplay,
 	"versions-replay":     versionsReplay,
 	"vdrapi-replay":       vdrapiReplay,
+	"clientsend-replay":   clientsendReplay,
 	"chain-replay":        chainReplay,
 	"client-replay":       clientReplay,
 	"transform-replay":    transformReplay,
